@@ -269,6 +269,7 @@ def in_big_thread(fn, *a):
 
 
 _NO_CPU_LIMIT = [False]
+VALGRIND_LIMIT = 300  # wall seconds for one confirming run
 
 
 def cpu_alarm_confirmed(src, prev_src):
@@ -282,15 +283,15 @@ def cpu_alarm_confirmed(src, prev_src):
 
     try:
         base = icount.baseline()
-        a = icount.instructions(src, timeout=1200) - base
+        a = icount.instructions(src, timeout=VALGRIND_LIMIT) - base
     except icount.Unavailable as e:
         if "exceeded" in str(e):
-            return True, "under valgrind the same input did not finish within 1200 s (inputs of this size take under 20 s there)"
+            return True, "under valgrind the same input did not finish within %d s (inputs of this size take 15 - 60 s there, 15 s of native CPU time about 750 s)" % VALGRIND_LIMIT
         return None, str(e)
     per_char = a / float(max(len(src), 1))
     if prev_src is not None:
         try:
-            b = icount.instructions(prev_src, timeout=1200) - base
+            b = icount.instructions(prev_src, timeout=VALGRIND_LIMIT) - base
         except icount.Unavailable as e:
             return None, str(e)
         prev_per_char = b / float(max(len(prev_src), 1))
@@ -323,6 +324,11 @@ def check_family(name, builder, ks, st, case, measure=None):
         if ok == "budget-cpu":
             # (CPU time of this thread, 1000x above what the unchanged tree needs for
             # inputs of this length: work inside C-level operations that events do not see)
+            allowance = None if prev is None else (RATIO * prev[1] + SLACK) * max(1.0, float(k) / (2 * prev[0]))
+            if allowance is not None and n > allowance:
+                # no need for a clock: when it was abandoned the parse had already made
+                # more calls than its size allows
+                fail("growth", case, builder(ks[0]), "family %s: work %s - at k=%d the parse was abandoned after %d events, more than the %d that doubling allows (k=%d took %d)" % (name, series, k, n, allowance, prev[0], prev[1]), "superlinear")
             verdict, why = cpu_alarm_confirmed(src, builder(prev[0]) if prev is not None else None)
             if verdict is None:
                 st.classes["cpu_budget_hit_undecided"] += 1
